@@ -101,6 +101,11 @@ structure World where
   txIndex : Nat := 0
   transient : SMap := []
   access : List Addr := []
+  /-- stake of the miner registered for an account (`miner.Stake`, kept in the storage of the miner
+      database account; read by `GetMiner`, written by `AddStake` / `GetRefundStake`) -/
+  stake : AMap Nat := []
+  /-- the refund counter (`AddRefund`; journaled; cleared by `Finalise`, not by `Prepare`) -/
+  refund : Nat := 0
   deriving Repr, Inhabited
 
 namespace World
@@ -112,6 +117,7 @@ def getCode (w : World) (a : Addr) : Code := w.code.get .empty a
 def hasSuicided (w : World) (a : Addr) : Bool := w.sui.get false a
 def getState (w : World) (a : Addr) (k : Nat) : Nat := w.stor.get a k
 def getTransient (w : World) (a : Addr) (k : Nat) : Nat := w.transient.get a k
+def getStake (w : World) (a : Addr) : Nat := w.stake.get 0 a
 def inAccessList (w : World) (a : Addr) : Bool := w.access.contains a
 /-- `AccountDB.GetLogs(hash)` -/
 def getLogs (w : World) (h : Nat) : List Log := w.logs.filter (fun l => l.txh == h)
@@ -164,6 +170,10 @@ def addLog (w : World) (a : Addr) (ntopics tag : Nat) : World :=
 def setTransient (w : World) (a : Addr) (k v : Nat) : World :=
   { w with transient := w.transient.set a k v }
 
+/-- `gasSelfdestruct`: `if !HasSuicided(self) { AddRefund(SelfdestructRefundGas) }` -/
+def selfdestructRefund (w : World) (self : Addr) : World :=
+  if w.hasSuicided self then w else { w with refund := w.refund + 24000 }
+
 def addAccess (w : World) (a : Addr) : World :=
   if w.access.contains a then w else { w with access := a :: w.access }
 
@@ -179,10 +189,12 @@ structure Obs where
   code : Addr → Code
   stor : Addr → Nat → Nat
   logs : List Log
+  /-- miner stakes: storage of the miner database account -/
+  stake : Addr → Nat
 
 def obs (w : World) : Obs :=
   { exist := w.exists?, nonce := w.getNonce, bal := w.getBalance, code := w.getCode,
-    stor := w.getState, logs := w.logs }
+    stor := w.getState, logs := w.logs, stake := w.getStake }
 
 /-- Per-transaction scratch state and log stamping context. -/
 structure Scratch where
@@ -191,9 +203,10 @@ structure Scratch where
   thash : Nat
   txIndex : Nat
   logSize : Nat
+  refund : Nat
 
 def scratch (w : World) : Scratch :=
   { transient := w.getTransient, access := w.inAccessList, thash := w.thash,
-    txIndex := w.txIndex, logSize := w.logSize }
+    txIndex := w.txIndex, logSize := w.logSize, refund := w.refund }
 
 end Rangers.Model.Evm12
